@@ -24,7 +24,10 @@ def binop(ex, op, a, b, fr, inplace=False, node=None):
             raise Unsupported(f"opaque array operator {op}")
         x, y = (v.t if v.ty.kind == "oarr" else smt.oarr_of_fl(ex.coerce(v, "fl").t) for v in (a, b))
         r = smt.oarr_bin(z3.IntVal(code), x, y)
-        ex.assume(smt.oarr_rows(r) >= 0)
+        # NumPy broadcasting of the leading dimension: a vector / scalar counts as one row; the result has the larger row count
+        rx = smt.oarr_rows(x) if a.ty.kind == "oarr" else z3.IntVal(1)
+        ry = smt.oarr_rows(y) if b.ty.kind == "oarr" else z3.IntVal(1)
+        ex.assume(smt.oarr_rows(r) == z3.If(rx >= ry, rx, ry))
         return Val(Ty("oarr"), r)
     raise Unsupported(f"array arithmetic {op} on {a.ty}, {b.ty}")
 
@@ -51,7 +54,7 @@ def subscript(ex, v, sl, fr, node):
         if isinstance(sl, ast.Tuple) and len(sl.elts) == 2 and isinstance(sl.elts[0], ast.Slice) and isinstance(sl.elts[1], ast.Constant) \
                 and sl.elts[0].lower is None and sl.elts[0].upper is None and sl.elts[1].value in (0, 1):
             r = smt.oarr_col(v.t, z3.IntVal(sl.elts[1].value))
-            ex.assume(smt.oarr_rows(r) >= 0)
+            ex.assume(smt.oarr_rows(r) == 1)          # a 1-D vector: one row for broadcasting
             return Val(Ty("oarr"), r)
     if v.ty.kind == "g" and not isinstance(sl, (ast.Slice, ast.Tuple)):
         j = ex.coerce(ex.ev(sl, fr), "int")
